@@ -185,8 +185,8 @@ impl Kernel {
                     buggify::should_buggify_with_prob(r, FAULT_ID, f64::from_bits(n(3)))
                 };
                 let after = buggify::get_stats();
-                let d = |m: &std::collections::HashMap<String, u64>| m.get(FAULT_ID).copied().unwrap_or(0);
-                if d(&after.checks) != d(&before.checks) + 1 || d(&after.triggers) != d(&before.triggers) + res as u64 {
+                if crate::c20_bug::count_of(&after.checks, FAULT_ID) != crate::c20_bug::count_of(&before.checks, FAULT_ID) + 1
+                    || crate::c20_bug::count_of(&after.triggers, FAULT_ID) != crate::c20_bug::count_of(&before.triggers, FAULT_ID) + res as u64 {
                     complaints.push(("C20:buggify:stats-inconsistent".into(), line.to_string()));
                 }
                 tf(res)
@@ -701,8 +701,12 @@ mod real {
     use redis_sim::streaming::wal_dst::{WalDSTConfig, WalDSTHarness};
     use crate::rng::Rng;
 
-    fn sorted_map(m: &std::collections::HashMap<String, u64>) -> String {
-        let mut v: Vec<(&String, &u64)> = m.iter().collect();
+    fn sorted_map<'a, M>(m: &'a M) -> String
+    where
+        &'a M: IntoIterator<Item = (&'a String, &'a u64)>,
+    {
+        // whatever map type the counters live in (HashMap today): only its (key, count) pairs are used
+        let mut v: Vec<(&String, &u64)> = m.into_iter().collect();
         v.sort();
         v.iter().map(|(k, n)| format!("{}={}", k, n)).collect::<Vec<_>>().join(",")
     }
